@@ -97,6 +97,9 @@ where
         instrument!(follows_from: &merge_fn_span, "merge", merge_span);
         trace!("from sink: {message:?}");
         if let Message::Handshake(sink) = message {
+            #[cfg(feature = "verif")]
+            #[allow(unused_imports)]
+            use crate::verif::{ArcSwapOption, AtomicBool, AtomicUsize};
             let n = sources.len();
             let source_talkbacks: Arc<Vec<ArcSwapOption<Source<T>>>> = Arc::new({
                 let mut source_talkbacks = Vec::with_capacity(n);
